@@ -570,7 +570,7 @@ func prop(c Case) pbt.Outcome {
 	}
 	x, err := Build(c)
 	if err != nil {
-		labels["build-error"] = true
+		labels["build-error:"+panicClass(err)] = true
 		return out(false, nil, "build-error")
 	}
 	single := x.Mach != nil
